@@ -80,14 +80,18 @@ def compiler_raised(ck):
 
 
 ENTRY_DECL = """
-#[derive(Debug)] pub struct SE { pub a: i32, pub b: i32, pub s: String, pub xs: Vec<i32>, pub m: BTreeMap<String, i32>, pub o: Option<i32>, pub t: (i32, i32) }
-pub fn mk() -> SE { SE { a: 1, b: 2, s: "hello".to_string(), xs: vec![5, 6, 7], m: BTreeMap::from([("a".to_string(), 1), ("b".to_string(), 2)]), o: Some(3), t: (1, 2) } }
+#[derive(Debug)] pub struct SE { pub a: i32, pub b: i32, pub s: String, pub xs: Vec<i32>, pub m: BTreeMap<String, i32>, pub o: Option<i32>, pub t: (i32, i32), pub inner: In2 }
+#[derive(Debug)] pub struct In2 { pub value: i32, pub list: Vec<i32> }
+pub fn mk() -> SE { SE { a: 1, b: 2, s: "hello".to_string(), xs: vec![5, 6, 7], m: BTreeMap::from([("a".to_string(), 1), ("b".to_string(), 2)]), o: Some(3), t: (1, 2), inner: In2 { value: 1, list: vec![1] } } }
 """
 # well-typed programs whose ONLY defect is a token the grammar has no place for; were that token dropped they would compile (and pass or fail at run time)
 ENTRY_MALFORMED = ['SE { a: 1, .., b: 99 }', 'SE { xs: #(5, .., 99), .. }', 'SE { m: #{ "a": 1, .., "b": 99 }, .. }', 'SE { s.starts_with("he" "llo-not"): true, .. }', 'SE { xs[0 1]: 5, .. }',
                    'SE { a: 1 .. }', 'SE { o: Some(3 4), .. }', 'SE { xs: [5 6, ..], .. }', 'SE { a: 1, b: 2 c: 3, .. }', 'SE { t: (1, 2 3), .. }', 'SE { xs: #(5, 6, 7 8), .. }', 'SE { m: #{ "a": 1 2, .. }, .. }',
-                   'SE { xs.len() 0: 3, .. }', 'SE { a: > 0 1, .. }', 'SE { a: 1, .. } trailing', 'SE { a: 1, .. }, extra', '_ { a: 1, .., b: 99 }', 'SE { o: Some(3, ), b: 2 2, .. }', 'SE { a: == 1 2, .. }', 'SE { s: =~ "h" "x", .. }']
-ENTRY_CONTROLS = ['SE { a: 1, b: 2, .. }', 'SE { xs: #(5, ..), m: #{ "a": 1, .. }, .. }', 'SE { s.starts_with("he"): true, xs[0]: 5, .. }', '_ { a: 1, .. }']
+                   'SE { xs.len() 0: 3, .. }', 'SE { a: > 0 1, .. }', 'SE { a: 1, .. } trailing', 'SE { a: 1, .. }, extra', '_ { a: 1, .., b: 99 }', 'SE { o: Some(3, ), b: 2 2, .. }', 'SE { a: == 1 2, .. }', 'SE { s: =~ "h" "x", .. }',
+                   # stray tokens after a step of a field path (type arguments without a call, operators, casts)
+                   'SE { inner.value::<u64>: 1, .. }', 'SE { inner.list::<i32>.len(): 1, .. }', 'SE { inner.value?: 1, .. }', 'SE { inner.value as i64: 1, .. }', 'SE { inner.value!: 1, .. }', 'SE { inner.value.: 1, .. }',
+                   'SE { inner..value: 1, .. }', 'SE { inner.value + 0: 1, .. }', 'SE { inner.list[0] 0: 1, .. }', 'SE { t.0::<i32>: 1, .. }', '_ { inner.value::<u64>: 1, .. }']
+ENTRY_CONTROLS = ['SE { inner.value: 1, inner.list.len(): 1, t.0: 1, .. }', 'SE { a: 1, b: 2, .. }', 'SE { xs: #(5, ..), m: #{ "a": 1, .. }, .. }', 'SE { s.starts_with("he"): true, xs[0]: 5, .. }', '_ { a: 1, .. }']
 
 
 def malformed_compiled(ck):
